@@ -207,7 +207,10 @@ def run(ctx: Ctx):
         # the append must happen whenever the origin is known (dominates normal exit past the lookup)
         an = [n for n in gr.nodes if a in n.calls()]
         facts = must_facts(gr, Atomizer(model, rec.module, nc), an[0]) if an else set()
-        bad = [f for f in facts if not (f[1] == "in-expr" and f[2] in (f"self.{ORIG}", f"self.{WIN}"))]
+        # allowed: table membership, and "the recorded origin is known" (rec_key is not None)
+        bad = [f for f in facts if not (f[1] == "in-expr" and f[2] in (f"self.{ORIG}", f"self.{WIN}"))
+               and not (rec_key is not None and f[0] == rec_key and
+                        ((f[1] == "is" and f[2] is None and f[3] is False) or (f[1] == "truthy" and f[3])))]
         if bad:
             ctx.fail(cons + "#conditional", rec.loc(a), f"the answered id is only remembered under {bad}")
     # callers
@@ -285,6 +288,24 @@ def run(ctx: Ctx):
         okh = ov is not None and any(
             f_[0].replace(" ", "") == f"isinstance({ast.unparse(ov)},bytes)" and f_[1] == "truthy" and f_[3]
             for f_ in fx)
+        if not okh and isinstance(ov, ast.Name):
+            # the "bytes or None" idiom: a dominating `if not isinstance(x, bytes): x = None`
+            for t_ in g.nodes:
+                if t_.kind != "test":
+                    continue
+                a_ = at.node_atom(t_)
+                if a_ is None or a_.subject.replace(" ", "") != f"isinstance({ov.id},bytes)" or a_.op != "truthy":
+                    continue
+                false_lab = "T" if a_.flip else "F"
+                nxt = [d for l, d in t_.succ if l == false_lab]
+                resets = bool(nxt) and nxt[0].kind == "stmt" and isinstance(nxt[0].ast, ast.Assign) \
+                    and any(A.dotted(x) == ov.id for x in nxt[0].ast.targets) \
+                    and isinstance(nxt[0].ast.value, ast.Constant) and nxt[0].ast.value.value is None
+                restored = [n_ for n_ in g.nodes if n_.kind == "stmt" and n_ is not (nxt[0] if nxt else None)
+                            and any(A.dotted(x) == ov.id for x in n_.stores())
+                            and n_ in g.reach([t_], include_starts=False)]
+                if resets and g.dominated(s, [t_]) and not restored:
+                    okh = True
         if not okh:
             ctx.fail(cons_h, g.loc(s), f"`{ast.unparse(ov) if ov is not None else '?'}` is recorded as the "
                      f"request's origin without having been checked to be bytes: for a command without "
